@@ -56,6 +56,26 @@ PROPS = {
         design_ref="DESIGN.md §5 C04",
         assumptions=[],
     ),
+    "C02": dict(
+        units=["implied"],
+        level="proof",
+        level_text="Deductive proof (Verus), one-step form of the property. On the real text: TimeoutQC::high_vote returns exactly THE "
+                   "header whose reporters' weight reaches n-3f (None if there is none or more than one), computed without overflow for "
+                   "every certificate with disjoint signer sets; TimeoutQC::high_qc returns a carried certificate of maximal view (None "
+                   "iff none is carried); ProposalJustification::get_implied_block equals the rule of the statement (commit cert for n "
+                   "=> fresh block n+1; timeout cert => re-propose the sub-quorum high vote's payload iff it is for a higher number than "
+                   "the highest carried certificate, else a fresh block after that certificate / the first block). Ghost lemma "
+                   "`lemma_subquorum`: for every committee and every faulty set of weight <= f, if a quorum signed commit votes for h, every "
+                   "timeout quorum of that view reports h with weight >= n-3f and anything else with weight < n-3f.",
+        level_note="Not decided: chaining the one-step lemma over arbitrarily many later views (history induction H-ind), and the bridge "
+                   "between `hvw` (sum over certificate entries) and the set-weight of the lemma is by definition, not a mechanised lemma. "
+                   "Trusted: std HashMap entry/into_iter/filter/collect and BTreeMap keys/filter_map/max_by_key behind 3 templates "
+                   "(closures verified), BLS/keccak/BitVec as in C04; A7: certified block numbers < 2^64-1. Replica-side consumers "
+                   "(payload rule in on_proposal / create_proposal) are covered under C05 when unit replica is claimed.",
+        technique="contract-based deductive verification (Verus on extracted real functions + ghost counting lemma)",
+        design_ref="DESIGN.md §5 C02",
+        assumptions=[],
+    ),
 }
 
 NOT_APPLICABLE = {
